@@ -303,7 +303,8 @@ def finding_region(i, o, q):
     return None
 
 
-def check_case(R, np, tf_cache, i, o, preserve, layout, raws, mrep, classes=None, record=True, shape=None):
+def check_case(R, np, tf_cache, i, o, preserve, layout, raws, mrep, classes=None, record=True, shape=None,
+               judge=None):
     """One transformer call on one array.  mrep = model reply for
     (i, o, preserve, writeable, native, raws).  Returns number of problems."""
     from harness.common import outcome_of
@@ -361,7 +362,9 @@ def check_case(R, np, tf_cache, i, o, preserve, layout, raws, mrep, classes=None
         if b1.tobytes() != b2.tobytes():
             R.violation("memory outside the passed view was modified", case, {})
             problems += 1
-    # ---- property (oracle on what the implementation produced)
+    # ---- property (oracle on what the implementation produced, every layout and mode)
+    if judge is not None:
+        problems += judge.check(R, raws, got, case)
     if preserve and after != before:
         R.violation("input modified although preserve_input=True", case, {"before": before[:8], "after": after[:8]})
         problems += 1
@@ -373,49 +376,100 @@ def check_case(R, np, tf_cache, i, o, preserve, layout, raws, mrep, classes=None
 GUARD_IDS = ["float64-to-float32-overflows-to-inf"]
 
 
-def oracle_values(R, np, i, o, raws, got, spec, guards, classes=None):
-    """Apply the oracle to the implementation's results for finite inputs.
-    spec = extracted nearest_sat_of replies [(finite?, expected raw)];
-    guards = extracted guard (Convert.float32_overflow_guard) per value: a false
-    guard names the finding region."""
-    problems = 0
-    for k, b in enumerate(raws):
-        if not raw_is_finite(i, b):
-            continue
-        q = exact(i, b)
-        want = ref_nearest(o, q)
-        ext_region = None
-        for gid, gv in zip(GUARD_IDS, guards[k]):
-            if str(gv) != "true":
-                ext_region = gid
-                break
-        if ext_region != finding_region(i, o, q):
-            R.violation("extracted guard and the harness's region predicate disagree (harness self-check)",
-                        {"in": i, "out": o, "values": [b]},
-                        {"extracted": ext_region, "harness": finding_region(i, o, q)})
-            problems += 1
-            continue
-        fin, s_want = str(spec[k][0]) == "true", spec[k][1]
-        if not fin or s_want != want:
-            R.violation("extracted nearest_sat disagrees with the Fraction restatement (harness self-check)",
-                        {"in": i, "out": o, "values": [b]}, {"spec": s_want, "ref": want})
-            problems += 1
-            continue
-        g = got[k]
-        if o == "float32" and g in (0x80000000,) and want == 0:
-            g = 0      # sign of an exact zero result is not part of "nearest value"
-        if o == "float32" and want == 0x80000000 and g == 0:
-            g = want
-        if g != want and not (o == "float32" and {g, want} == {0, 0x80000000}):
-            region = finding_region(i, o, q)
+class Judge:
+    """The oracle for one (input, output) pair: expected raw result and finding
+    region per finite raw input value, from the extracted nearest_sat_of /
+    guards replies, self-checked once against the Fraction restatement."""
+
+    def __init__(self, R, i, o, raws, spec, guards):
+        self.i, self.o = i, o
+        self.want = {}
+        self.region = {}
+        self.problems = 0
+        for k, b in enumerate(raws):
+            if b in self.want or not raw_is_finite(i, b):
+                continue
+            q = exact(i, b)
+            want = ref_nearest(o, q)
+            ext_region = None
+            for gid, gv in zip(GUARD_IDS, guards[k]):
+                if str(gv) != "true":
+                    ext_region = gid
+                    break
+            if ext_region != finding_region(i, o, q):
+                R.violation("extracted guard and the harness's region predicate disagree (harness self-check)",
+                            {"in": i, "out": o, "values": [b]},
+                            {"extracted": ext_region, "harness": finding_region(i, o, q)})
+                self.problems += 1
+                continue
+            fin, s_want = str(spec[k][0]) == "true", spec[k][1]
+            if not fin or s_want != want:
+                R.violation("extracted nearest_sat disagrees with the Fraction restatement (harness self-check)",
+                            {"in": i, "out": o, "values": [b]}, {"spec": s_want, "ref": want})
+                self.problems += 1
+                continue
+            self.want[b] = want
+            self.region[b] = ext_region
+
+    def check(self, R, raws, got, case):
+        """Apply the oracle to what the implementation returned for one call
+        (any layout, any mode).  Returns the number of violations."""
+        o = self.o
+        problems = 0
+        for k, b in enumerate(raws):
+            want = self.want.get(b)
+            if want is None:
+                continue
+            g = got[k]
+            if g == want or (o == "float32" and {g, want} == {0, 0x80000000}):
+                continue       # (the sign of an exact zero is not part of "nearest value")
+            region = self.region[b]
             if region and any(f["id"] == region for f in R.findings):
                 R.known(region)
                 R.count("known:" + region)
             else:
+                c = dict(case, values=[b], index=k)
+                c.pop("shape", None)
                 R.violation("result is not the nearest representable value (half-to-even, saturating)",
-                            {"in": i, "out": o, "values": [b], "preserve": True, "layout": "contig"},
-                            {"impl": g, "spec": want, "exact": str(q)})
+                            c, {"impl": g, "spec": want, "exact": str(exact(self.i, b))})
                 problems += 1
+                if problems >= 3:
+                    break
+        return problems
+
+
+def build_judge(R, i, o, raws):
+    from harness.common import Atom
+    raws = [b for b in dict.fromkeys(raws) if raw_is_finite(i, b)]
+    spec, guards = R.model.batch([("nearest_sat_of", [Atom(i), Atom(o), raws]),
+                                  ("guards", [Atom(i), Atom(o), raws])])
+    return Judge(R, i, o, raws, spec, guards)
+
+
+def run_sequence(R, np, tf, i, o, steps, judge):
+    """Several calls on ONE transformer object.  Every result is judged by the
+    oracle when it is returned, and every result returned earlier must still
+    hold the same values after each later call (a caller may collect converted
+    blocks).  steps: dicts with values, preserve, layout, shape."""
+    problems = 0
+    kept = []
+    for k, st in enumerate(steps):
+        arr, _base = make_layout(np, st["layout"], i, st["values"], tuple(st["shape"]))
+        case = {"in": i, "out": o, "sequence": steps[:k + 1]}
+        try:
+            with np.errstate(all="ignore"):
+                res = tf(arr, preserve_input=st["preserve"])
+        except Exception as exc:  # noqa: BLE001
+            R.violation("the conversion raises instead of converting", case, {"exception": repr(exc)})
+            return problems + 1
+        got = from_array(np, res)
+        problems += judge.check(R, st["values"], got, dict(case, preserve=st["preserve"], layout=st["layout"]))
+        for j, (old_res, snap) in enumerate(kept):
+            if from_array(np, old_res) != snap:
+                R.violation("a result returned earlier was changed by a later call on the same transformer",
+                            dict(case, changed_step=j), {"was": snap[:8], "now": from_array(np, old_res)[:8]})
+                return problems + 1
+        kept.append((res, got))
     return problems
 
 
@@ -468,6 +522,7 @@ def run(R):
             R.count(f"values:{i}:{cls}")
 
     tf_cache = {}
+    judges = {}
     for i in INS:
         fin = pad4([b for b, _ in values[i]])
         if is_float(i):
@@ -493,8 +548,8 @@ def run(R):
             reqs.append(("nearest_sat_of", [Atom(i), Atom(o), fin]))
             reqs.append(("guards", [Atom(i), Atom(o), fin]))
             reps = R.model.batch(reqs)
-            spec = reps[-2]
-            guards = reps[-1]
+            judge = Judge(R, i, o, fin, reps[-2], reps[-1])
+            judges[(i, o)] = judge
             ridx = 0
             for sn, raws in streams:
                 mreps = {}
@@ -506,7 +561,7 @@ def run(R):
                     wr, nat = layout_flags(layout, i)
                     for preserve in (True, False):
                         mrep = mreps[(preserve, wr, nat)]
-                        nprob = check_case(R, np, tf_cache, i, o, preserve, layout, raws, mrep)
+                        nprob = check_case(R, np, tf_cache, i, o, preserve, layout, raws, mrep, judge=judge)
                         nontriv = (i != o)
                         R.case({"in": i, "out": o, "preserve": preserve, "layout": layout,
                                 "stream": sn, "n": len(raws)}, nontrivial=nontriv)
@@ -516,20 +571,42 @@ def run(R):
                         res = [canon(o, b) for b in mrep[0]]
                         if base_res is None:
                             base_res = res
-                # oracle on the implementation's results (finite stream, once per pair)
+                # the in-place mode must give the same values as the default mode
                 if sn == "finite":
                     arr = to_array(np, i, raws, (len(raws) // 4, 4))
                     with np.errstate(all="ignore"):
                         got = from_array(np, tf_cache[(i, o)](arr))
-                    oracle_values(R, np, i, o, raws, got, spec, guards)
-                    # and the in-place mode must give the same values
-                    with np.errstate(all="ignore"):
                         got2 = from_array(np, tf_cache[(i, o)](arr.copy(), preserve_input=False))
                     if got2 != got:
                         k = [j for j in range(len(raws)) if got[j] != got2[j]][0]
                         R.violation("result depends on preserve_input",
                                     {"in": i, "out": o, "values": [raws[k]], "layout": "contig"},
                                     {"preserve": got[k], "inplace": got2[k]})
+    # ------------------------------------------------------------ sequences on one transformer
+    # three blocks of one shape through ONE transformer object, both buffer modes,
+    # several layouts; earlier results are re-read after every later call
+    from neuroglancer_scripts.data_types import get_chunk_dtype_transformer as _mk
+    SEQ = [(0, False, "contig"), (1, False, "contig"), (2, True, "fortran"), (0, False, "fortran"),
+           (1, True, "contig"), (2, False, "strided"), (0, False, "contig")]
+    for i in INS:
+        pool = [b for b, _ in values[i] if raw_is_finite(i, b)]
+        lo_, hi_ = (irange(i) if not is_float(i) else (None, None))
+        for o in OUTS:
+            top = [b for b in pool if judges[(i, o)].want.get(b) not in (None, 0)][-4:]
+            blocks = []
+            for _k in range(3):
+                blk = [rng.choice(pool) for _ in range(12)]
+                blk[:len(top)] = top if _k != 1 else top[::-1]
+                blocks.append(blk)
+            for shape in ((3, 4), (12,)):
+                steps = [{"values": blocks[bi], "preserve": pres,
+                          "layout": lay if len(shape) > 1 or lay != "fortran" else "contig",
+                          "shape": list(shape)} for bi, pres, lay in SEQ]
+                run_sequence(R, np, _mk(i, o, warn=False), i, o, steps, judges[(i, o)])
+                R.case({"in": i, "out": o, "sequence": len(steps), "shape": list(shape)}, nontrivial=(i != o))
+                R.count("sequence-on-one-transformer")
+                R.traces += 12 * len(steps)
+
     # ------------------------------------------------------------ shapes
     # small arrays of 1 to 4 dimensions, sizes 1..9 (and one long axis), every layout
     shp_cases = []
@@ -554,7 +631,7 @@ def run(R):
         reqs.append(("convert", [Atom(i), Atom(o), preserve, wr, nat, raws]))
     reps = R.model.batch(reqs)
     for (i, o, shape, raws, layout, preserve), mrep in zip(shp_cases, reps):
-        check_case(R, np, tf_cache, i, o, preserve, layout, raws, mrep, shape=shape)
+        check_case(R, np, tf_cache, i, o, preserve, layout, raws, mrep, shape=shape, judge=judges[(i, o)])
         R.case({"in": i, "out": o, "preserve": preserve, "layout": layout, "shape": list(shape)},
                nontrivial=(i != o))
         R.count(f"shape-ndim:{len(shape)}")
@@ -609,18 +686,18 @@ def replay(R, payload):
     if "in" not in case:
         return True
     i, o = case["in"], case["out"]
+    from neuroglancer_scripts.data_types import get_chunk_dtype_transformer
+    if "sequence" in case:
+        steps = case["sequence"]
+        judge = build_judge(R, i, o, [b for st in steps for b in st["values"]])
+        n = run_sequence(R, np, get_chunk_dtype_transformer(i, o, warn=False), i, o, steps, judge)
+        return bool(n or R.violations or R.disagreements)
     shape = tuple(case["shape"]) if "shape" in case and "index" not in case else None
     raws = list(case["values"]) if shape else pad4(case["values"])
     layout = case.get("layout", "contig")
     preserve = case.get("preserve", True)
     wr, nat = layout_flags(layout, i)
     mrep = R.model.call("convert", [Atom(i), Atom(o), preserve, wr, nat, raws])
-    spec = R.model.call("nearest_sat_of", [Atom(i), Atom(o), raws])
-    guards = R.model.call("guards", [Atom(i), Atom(o), raws])
-    n = check_case(R, np, {}, i, o, preserve, layout, raws, mrep, record=False, shape=shape)
-    from neuroglancer_scripts.data_types import get_chunk_dtype_transformer
-    arr = to_array(np, i, raws, shape or (len(raws) // 4, 4))
-    with np.errstate(all="ignore"):
-        got = from_array(np, get_chunk_dtype_transformer(i, o, warn=False)(arr))
-    n += oracle_values(R, np, i, o, raws, got, spec, guards)
+    judge = build_judge(R, i, o, raws)
+    n = check_case(R, np, {}, i, o, preserve, layout, raws, mrep, record=False, shape=shape, judge=judge)
     return bool(n or R.violations or R.disagreements)
